@@ -227,6 +227,10 @@ impl<'grammar> TypeInferencer<'grammar> {
             Ok(alternative_types.pop().unwrap())
         })?;
 
+        // Record the type before looking at tuple patterns: a pattern may bind this very
+        // nonterminal (`X = <(a, b): X> ..`), which must not start the computation again.
+        self.types.add_type(id.clone(), ty.clone());
+
         for alt in nt.alternatives {
             let symbols = &alt.expr.symbols;
             for (t, s) in symbols.iter().filter_map(Symbol::as_tuple) {
@@ -244,7 +248,6 @@ impl<'grammar> TypeInferencer<'grammar> {
             }
         }
 
-        self.types.add_type(id.clone(), ty.clone());
         Ok(ty)
     }
 
